@@ -410,6 +410,39 @@ fn check_divisor(cx: &Ctx, d: u64, ds: usize, vals: &[(u64, u8)], batch: bool, r
         loc.pairs_via_partition_indices += vals.len() as u64;
         loc.max_div_partition_indices = loc.max_div_partition_indices.max(d);
         let hashes: Vec<u64> = vals.iter().map(|x| x.0).collect();
+        // The partition of a row may depend only on its own hash: the same values are also routed in
+        // other positions (reversed, rotated so that every value leads a batch sooner or later, and as
+        // one-row batches for the boundary values), which exposes state carried from row to row.
+        {
+            let mut orders: Vec<Vec<u64>> = vec![hashes.iter().rev().copied().collect()];
+            if !hashes.is_empty() {
+                let r = (d as usize ^ hashes.len()) % hashes.len();
+                let mut rot = hashes.clone();
+                rot.rotate_left(r);
+                orders.push(rot);
+            }
+            for v in hashes.iter().filter(|v| **v >= u64::MAX - 8 || **v <= 1 || **v == d || **v == d - 1).take(16) {
+                orders.push(vec![*v]);
+            }
+            let mut reported = 0;
+            for hs in orders {
+                loc.pairs_via_partition_indices += hs.len() as u64;
+                if let Ok(got) = guard(|| reduced_partition_of(d, &hs)) {
+                    for (i, v) in hs.iter().enumerate() {
+                        let obs = got.get(i).copied().unwrap_or(u32::MAX);
+                        if obs as u64 != *v % d && reported < 3 {
+                            reported += 1;
+                            cx.rep.violation(
+                                "partition-index-mismatch",
+                                json!({"divisor": d.to_string(), "value": v.to_string(), "observed_partition": obs,
+                                       "expected": (*v % d).to_string(), "path": "partition_indices (re-ordered batch)", "position_in_batch": i,
+                                       "batch_head": hs.iter().take(4).map(|x| x.to_string()).collect::<Vec<_>>(), "divisor_stratum": DS[ds]}),
+                            );
+                        }
+                    }
+                }
+            }
+        }
         match guard(|| reduced_partition_of(d, &hashes)) {
             Ok(mut got) => {
                 if corrupt_now && !got.is_empty() {
